@@ -133,10 +133,10 @@ def _body_and_params(text: str, header_re: str) -> tuple[str, list[str]]:
 
 def _split_args(s: str) -> list[str]:
     out, depth, cur = [], 0, ""
-    for ch in s:
-        if ch in "([{<":
+    for ch in s:          # template brackets are not counted (`->` would unbalance them; no argument here has a comma inside <>)
+        if ch in "([{":
             depth += 1
-        elif ch in ")]}>":
+        elif ch in ")]}":
             depth -= 1
         if ch == "," and depth == 0:
             out.append(cur)
@@ -250,11 +250,11 @@ def _verify_like(body: str, ct_name: str, ct_exprs: list[str], prefix: str, vals
 def extract_tables() -> tuple[dict, list[str]]:
     vals = {k: (list(v) if isinstance(v, list) else v) for k, v in DEFAULTS.items()}
     consts, gaps = extract_consts([
-        Const("kMinAllowedManifestTtl", NODE, r"constexpr\s+std::chrono::seconds\s+kMinAllowedManifestTtl\s*\{([^;]+)\}\s*;", default=1),
+        Const("kMinAllowedManifestTtl", NODE, r"constexpr\s+std::chrono::seconds\s+kMinAllowedManifestTtl\s*\{\s*std::chrono::seconds\s*\{([^}]+)\}", default=1),
         Const("kKeyBytes", "include/ephemeralnet/crypto/ChaCha20.hpp", r"struct\s+Key\s*\{\s*std::array<std::uint8_t,\s*(\d+)>", default=32),
         Const("kNonceBytes", "include/ephemeralnet/crypto/ChaCha20.hpp", r"struct\s+Nonce\s*\{\s*std::array<std::uint8_t,\s*(\d+)>", default=12),
         Const("kShardValueBytes", "include/ephemeralnet/protocol/Manifest.hpp",
-              r"struct\s+KeyShard\s*\{[^}]*std::array<std::uint8_t,\s*(\d+)>\s*value", default=32),
+              r"struct\s+KeyShard\s*\{.*?std::array<std::uint8_t,\s*(\d+)>\s*value", default=32),
         Const("kShardCountBits", "include/ephemeralnet/Config.hpp", r"std::uint(\d+)_t\s+shard_threshold\b", default=8),
         Const("kStoreMinThreshold", NODE, r"std::max<std::uint8_t>\(\s*std::uint8_t\{(\d+)\}\s*,\s*config_\.shard_threshold\s*\)", default=1),
     ])
